@@ -1,6 +1,7 @@
 import TucanProofs.Lemmas.Sort
 import TucanProofs.Lemmas.Bfs
 import TucanProofs.Lemmas.SerializeCongr
+import TucanProofs.Lemmas.Pipeline
 /-!
 # C14 — determinism across processes, call histories and threads  (PARTIAL)
 
@@ -35,6 +36,20 @@ theorem C14_serialize_listing_oblivious (c c' : Graph) (hw : c.WF) (hs : c.Simpl
     (same : Iso SameIdentPart id c c') (s s' : Str) (p p' : Graph)
     (h : serializeMolecule c = .ok (s, p)) (h' : serializeMolecule c' = .ok (s', p')) : s = s' :=
   serialize_congr c c' hw hs hw' hs' same s s' p p' h h'
+
+/-- (a) … and so does the canonical graph, and with it the whole pipeline: for one molecule whose nodes, neighbours
+and bonds are iterated in another order (the same labels — what a different hash seed or insertion history can
+change), canonicalization returns the same labelled graph and the pipeline the same string, for every oracle
+meeting the bliss contract -/
+theorem C14_pipeline_listing_oblivious (O : CanonOracle) (g g' : Graph) (hchem : g.Chem)
+    (hw : g.WF) (hs : g.Simple) (hw' : g'.WF) (hs' : g'.Simple) (same : Iso SameIdent id g g') :
+    (∀ c c' r r' k k', canonicalizeWith g O.order = .ok (c, r, k) → canonicalizeWith g' O.order = .ok (c', r', k') →
+      Iso SameIdentPart id c c' ∧ k = k') ∧
+    (∀ s s', tucanOf O.order g = .ok s → tucanOf O.order g' = .ok s' → s = s') := by
+  refine ⟨?_, fun s s' h h' => tucan_invariant O same hchem hw hs hw' hs' h h'⟩
+  intro c c' r r' k k' h h'
+  exact ⟨(canonical_graph_invariant O same hchem hw hs hw' hs' h h').1,
+    (refined_equivariant same hw hs hw' hs' h h').1⟩
 
 /-! ### (c) a lazily filled shared cache -/
 
